@@ -274,6 +274,11 @@ func (h *c01Harness) eval(in c01Input, cfg *c01Config, opt c01Opt) (S, C, R c01O
 
 	// ---- reference (or frozen vector) vs station -----------------------------------------------
 	switch {
+	case R.Err == "" && c01PrefixPreV3Refusal(in, &S):
+		// the pinned tree accepted a parameterless prefix registration from a pre-v3 library (port 443, the
+		// frozen vectors record that); no such client exists, so refusing it is legitimate - an ACCEPT is
+		// still compared field by field below
+		rec.Count("station_refuses_legitimately.prefix-pre-v3-without-params", 1)
 	case R.Err == "" && S.Err != "":
 		rec.Violation("station-refuses:"+c01ShortClass(S.Err)+":"+tag,
 			"the station refuses a registration for which the published derivation ("+refName+") yields a phantom", detail())
@@ -336,6 +341,13 @@ func (h *c01Harness) eval(in c01Input, cfg *c01Config, opt c01Opt) (S, C, R c01O
 		rec.Count("station_refusals."+c01ShortClass(S.Err), 1)
 	}
 	return S, C, R
+}
+
+// c01PrefixPreV3Refusal: the station refuses a prefix registration of a library version < 3 with the
+// "client couldn't support this transport" class.  Library versions before 3 have no prefix transport, so
+// this refusal is legitimate whatever the parameters are (DESIGN.md C01 FA).
+func c01PrefixPreV3Refusal(in c01Input, S *c01Out) bool {
+	return in.Tr == "prefix" && in.Lib < 3 && S.Err == c01ErrPrefixLib
 }
 
 func c01PtrStr(p interface{}) string {
